@@ -6,12 +6,45 @@ NOTES = ("All checks are property-based tests / fuzzing (rapid v1.3.0; Go native
 
 ALL = ["C%02d" % i for i in range(1, 21)]
 
+SEQ_NOTE = "Trusted: the reference post-conditions (harness/spec.go), Go's encoding/json, SQLite. Don't-care corners (DESIGN 2.2) accept several outcomes. Exploration only: shows the property on everything generated."
+SEQ_TECH = "stateful property-based testing (rapid state machine) against a reference model; ddmin shrinking of the recorded history"
+
 TEXT = {
     "C01": {
-        "level": "Generated-input search: thousands of model-based histories over every write entry point x prior document state x CAS class, on memory and disk buckets through 1-3 handles; after every step the whole bucket is read back through every read API and compared with per-operation post-conditions (exact body/CAS/expiry/xattrs/revision, error => unchanged, frame). Exploration, not proof: it shows the property on everything generated.",
-        "design_ref": "DESIGN.md 2.1-2.4, 4 (C01)",
-        "note": "Trusted: the reference post-conditions (harness/spec.go), Go's encoding/json, SQLite. Don't-care corners (DESIGN 2.2) accept several outcomes. Values up to a few hundred bytes plus a lowered MaxDocSize boundary.",
-        "technique": "stateful property-based testing (rapid state machine) against a reference model; ddmin shrinking of the recorded history",
+        "level": "Generated-input search: thousands of model-based histories over every write entry point x prior document state x CAS class, on memory and disk buckets through 1-3 handles; after every step the whole bucket is read back through every read API and compared with per-operation post-conditions (exact body/CAS/expiry/xattrs/revision, error => unchanged, frame). Exploration, not proof.",
+        "design_ref": "DESIGN.md 2.1-2.4, 4 (C01)", "note": SEQ_NOTE + " Values up to a few hundred bytes plus a lowered MaxDocSize boundary.", "technique": SEQ_TECH,
+    },
+    "C02": {
+        "level": "Generated histories weighted to the ten conditional entry points with every CAS class (0, current, previous version, purged incarnation, other key's, never issued) against documents in every reachable state: success iff the CAS is current (with the documented meaning of 0), failure leaves the document unchanged. Races are explored by the parking-scheduler scripts (see DESIGN).",
+        "design_ref": "DESIGN.md 4 (C02)", "note": SEQ_NOTE, "technique": SEQ_TECH + "; scheduled two-writer scripts on verif hook points",
+    },
+    "C05": {
+        "level": "Generated histories weighted to delete / resurrect / xattr-on-tombstone / purge paths; every key is observed after every step through Get, GetRaw, Exists, GetWithXattrs, GetXattrs, $document, live feed events, dump-feed backfills and follow-up insert-style writes, which must all agree that 'tombstone == no body'; Delete/Remove xattr and expiry rules and purge exactness are pinned.",
+        "design_ref": "DESIGN.md 2.3, 4 (C05)", "note": SEQ_NOTE, "technique": SEQ_TECH,
+    },
+    "C06": {
+        "level": "Generated histories in which insert-style writes (Add, AddRaw, WriteCas cas=0/AddOnly, WriteResurrectionWithXattrs, WriteWithXattrs cas=0) follow delete/re-create cycles made through other entry points: accepted iff the model says the key has no body (resp. does not exist), refused inserts leave the document and the feed untouched.",
+        "design_ref": "DESIGN.md 4 (C06)", "note": SEQ_NOTE, "technique": SEQ_TECH,
+    },
+    "C07": {
+        "level": "Generated histories weighted to the nine xattr entry points with generated set/delete subsets, invalid arguments, oversize documents and CAS/CRC32c macro specs: untouched xattrs byte-identical, named ones value-equal, body/expiry intact, combined writes all-or-nothing under one CAS, macros recomputed independently (little-endian hex CAS, Castagnoli CRC of the stored body).",
+        "design_ref": "DESIGN.md 4 (C07)", "note": SEQ_NOTE + " Xattr values stay inside what encoding/json round-trips (integers below 2^53, short decimals).", "technique": SEQ_TECH,
+    },
+    "C08": {
+        "level": "Generated histories over all entry points with 1-3 live feeds (plain, KeysOnly, multi-collection) started and written through any handle; after a sentinel write (FIFO argument, no sleeps) each feed's events are matched one-to-one with the successful CAS-changing mutations and compared field by field with the document version they describe; CAS order per collection. Concurrent ordering is explored by scheduled scripts.",
+        "design_ref": "DESIGN.md 2.5, 4 (C08)", "note": SEQ_NOTE + " Sentinel delivery bounded by 30 s.", "technique": SEQ_TECH + "; sentinel-synchronised event comparison; scheduled multi-writer scripts",
+    },
+    "C09": {
+        "level": "Generated histories followed / interleaved by dump feeds from generated start CAS values: between the markers exactly one event per document with CAS >= start, in CAS order, each equal (opcode, body, xattrs, datatype, CAS, expiry, RevNo) to the model and to the datatype of the live event of the same version. The start-up gap is explored by scheduled scripts.",
+        "design_ref": "DESIGN.md 4 (C09)", "note": SEQ_NOTE, "technique": SEQ_TECH + "; live-vs-backfill differential",
+    },
+    "C17": {
+        "level": "Generated histories over all mutating entry points: after each successful mutation the revision number (read through $document.revid, $document, live RevNo and backfill RevNo) is previous+1, 1 on creation or re-creation after purge, unchanged on failure.",
+        "design_ref": "DESIGN.md 4 (C17)", "note": SEQ_NOTE, "technique": SEQ_TECH,
+    },
+    "C18": {
+        "level": "Generated JSON documents, dotted paths, values and CAS classes for WriteSubDoc / SubdocInsert compared with a parse-edit-marshal reference (JSON-value equality), xattrs untouched, refusals leave the document unchanged; lost-update races explored by scheduled scripts.",
+        "design_ref": "DESIGN.md 4 (C18)", "note": SEQ_NOTE + " Numbers are compared as float64.", "technique": SEQ_TECH + "; differential against a reference implementation",
     },
 }
 
